@@ -87,6 +87,25 @@ ALL_OPS = (OPS_AB + OPS_A + OPS_SHIFT_PRIM + OPS_AN + OPS_SHIFT_U + OPS_SHIFT_UB
            + OPS_RADIX + OPS_LIST + OPS_NULL)
 
 
+TRUSTED = ['the choice of the inherent counterpart per facade entry point (op table at the top of harness/src/bin/c20.rs): '
+           'by the meaning of the trait method, never by what the facade body calls',
+           'value-level specifications of the inherent operations used in the model column (wrapping/checked/saturating/'
+           'overflowing add/sub/mul, div/rem, shifts, rotations, counts, byte strings, gcd/lcm via Nat.gcd/Nat.lcm): plain Nat '
+           'arithmetic in lean/Ruint/Drv/C20.lean; their limb-level proofs belong to C01-C08, C12, C13']
+ASSUMPTIONS = ['documented divergences, judged as such by the parity predicate and counted in the evidence by op: '
+               '(1) Uint::bit_ct panics for index >= BITS (documented) while Uint::bit returns false: F=panic, I=f accepted only '
+               'for index >= BITS; (2) the num-integer trait DEFAULT next_multiple_of wraps on overflow where the inherent '
+               'Uint::next_multiple_of panics: accepted only when I=panic and F equals the model of the default; '
+               '(3) unwrap facades (Integer::lcm / gcd_lcm, FromBytes::from_*_bytes, PrimInt::swap_bytes / to_be / from_be): the '
+               'facade signature cannot express the None of the inherent method, F=panic is accepted exactly when I=none; '
+               '(4) PrimInt::pow(u32) is compared with Uint::pow(a, Uint::from(e)): for e >= 2^BITS (only possible at BITS < 32) '
+               'the conversion Uint::from panics on both sides; (5) PrimInt::swap_bytes at widths that are not a multiple of 8 is '
+               'documented as not well defined (it panics whenever the reversed byte string does not fit)',
+               'little-endian host (to_le/from_le/to_ne_bytes branches for big-endian targets are not exercised)',
+               'constant-time behaviour of the subtle impls is not expressible in this model and is not claimed']
+TIMEOUT = 900
+
+
 def nontrivial(c, i):
     t = c.split(' ')
     return len(t) > 2 and t[1] != '0' and any(x not in ('0', '-', 'EMPTY') and x.strip('0,') != '' for x in t[2:])
